@@ -12,10 +12,10 @@ import (
 )
 
 type Addr struct {
-	Kind string // "field", "cell", "elem", "global"
-	Key  string // heap key
-	Base string // ref term (field/cell/elem backing ref)
-	Idx  string // absolute element index (BV64) for elem
+	Kind   string // "field", "cell", "elem", "global"
+	Key    string // heap key
+	Base   string // ref term (field/cell/elem backing ref)
+	Idx    string // absolute element index (BV64) for elem
 	Struct string // elemfield: struct sort of the element
 	Field  int    // elemfield: field index
 }
@@ -26,18 +26,18 @@ type Val struct {
 	Typ types.Type
 	Tup []*Val
 	// executor-level knowledge
-	Fn      *ssa.Function
-	Bind    []*Val
-	Dyn     types.Type
-	Box     *Val
-	Addr    *Addr
-	CLen    int
-	HasCLen bool
-	From    *Addr // address the value was loaded from (provenance, for guarded_by)
-	Sub     *SubObj // pointer to a nested struct field: which field of which object
-	Borrowed string // non-empty: a slice borrowed from a callee (valid only until its next call); names the lender
-	Shared   string // non-empty ([]byte values): read from memory that existed before this call (its backing array is shared); says from where
-	NotShrunk string // for a re-slice of a Shared []byte: SMT condition "the high bound is the full length" (appending then does not overwrite shared bytes)
+	Fn        *ssa.Function
+	Bind      []*Val
+	Dyn       types.Type
+	Box       *Val
+	Addr      *Addr
+	CLen      int
+	HasCLen   bool
+	From      *Addr   // address the value was loaded from (provenance, for guarded_by)
+	Sub       *SubObj // pointer to a nested struct field: which field of which object
+	Borrowed  string  // non-empty: a slice borrowed from a callee (valid only until its next call); names the lender
+	Shared    string  // non-empty ([]byte values): read from memory that existed before this call (its backing array is shared); says from where
+	NotShrunk string  // for a re-slice of a Shared []byte: SMT condition "the high bound is the full length" (appending then does not overwrite shared bytes)
 }
 
 type SubObj struct {
@@ -59,19 +59,19 @@ type Snapshot struct {
 }
 
 type State struct {
-	heap    map[string]string
-	ghost   map[string]string
-	pc      []string
-	decls   []string
-	declSet map[string]bool
-	allocs  []string        // fresh refs allocated on this path
-	facts   map[string]*Val // "key@ref" -> last stored value with executor-level knowledge
-	trail   []string        // branch decisions, for reporting
-	entry   *Snapshot       // function-entry snapshot of the function under verification
-	nsteps  int
-	dead    bool
-	notes   []string
-	defs    map[string]string
+	heap     map[string]string
+	ghost    map[string]string
+	pc       []string
+	decls    []string
+	declSet  map[string]bool
+	allocs   []string        // fresh refs allocated on this path
+	facts    map[string]*Val // "key@ref" -> last stored value with executor-level knowledge
+	trail    []string        // branch decisions, for reporting
+	entry    *Snapshot       // function-entry snapshot of the function under verification
+	nsteps   int
+	dead     bool
+	notes    []string
+	defs     map[string]string
 	asserted map[string]bool
 	escaped  map[string]bool // allocation refs whose address may be known to code outside the current path
 }
@@ -90,18 +90,18 @@ func copyMap(m map[string]string) map[string]string {
 
 func (s *State) clone() *State {
 	n := &State{
-		heap:    copyMap(s.heap),
-		ghost:   copyMap(s.ghost),
-		pc:      append([]string(nil), s.pc...),
-		decls:   append([]string(nil), s.decls...),
-		declSet: make(map[string]bool, len(s.declSet)),
-		allocs:  append([]string(nil), s.allocs...),
-		facts:   make(map[string]*Val, len(s.facts)),
-		trail:   append([]string(nil), s.trail...),
-		entry:   s.entry,
-		nsteps:  s.nsteps,
-		notes:   append([]string(nil), s.notes...),
-		defs:    copyMap(s.defs),
+		heap:     copyMap(s.heap),
+		ghost:    copyMap(s.ghost),
+		pc:       append([]string(nil), s.pc...),
+		decls:    append([]string(nil), s.decls...),
+		declSet:  make(map[string]bool, len(s.declSet)),
+		allocs:   append([]string(nil), s.allocs...),
+		facts:    make(map[string]*Val, len(s.facts)),
+		trail:    append([]string(nil), s.trail...),
+		entry:    s.entry,
+		nsteps:   s.nsteps,
+		notes:    append([]string(nil), s.notes...),
+		defs:     copyMap(s.defs),
 		asserted: make(map[string]bool, len(s.asserted)),
 	}
 	for k, v := range s.asserted {
